@@ -121,9 +121,17 @@ where
 {
     match spec.variant {
         Variant::Bytewise => {
-            let mut b = DoubleArrayAhoCorasickBuilder::new().match_kind(spec.kind);
+            // both orders of the two builder setters are exercised (deterministically per case)
+            let kind_first = (patterns.len() + spec.nfb.unwrap_or(0) as usize) % 2 == 0;
+            let mut b = DoubleArrayAhoCorasickBuilder::new();
+            if kind_first {
+                b = b.match_kind(spec.kind);
+            }
             if let Some(n) = spec.nfb {
                 b = b.num_free_blocks(n);
+            }
+            if !kind_first {
+                b = b.match_kind(spec.kind);
             }
             match spec.entry {
                 Entry::New => b.build(patterns.iter()).map(Pma::B),
@@ -133,9 +141,16 @@ where
             }
         }
         Variant::Charwise => {
-            let mut b = CharwiseDoubleArrayAhoCorasickBuilder::new().match_kind(spec.kind);
+            let kind_first = (patterns.len() + spec.nfb.unwrap_or(0) as usize) % 2 == 0;
+            let mut b = CharwiseDoubleArrayAhoCorasickBuilder::new();
+            if kind_first {
+                b = b.match_kind(spec.kind);
+            }
             if let Some(n) = spec.nfb {
                 b = b.num_free_blocks(n);
+            }
+            if !kind_first {
+                b = b.match_kind(spec.kind);
             }
             match spec.entry {
                 Entry::New => b.build(patterns.iter().map(|p| as_str(p))).map(Pma::C),
